@@ -3,7 +3,7 @@
 pub struct C08 {
     /// (segments, codomain of the values)
     pub segs: Vec<(Vec<Vec<usize>>, usize)>,
-    /// arguments of the one-argument families (quick: = segs; thorough: up to 5 segments of length <= 3)
+    /// arguments of the one-argument families (quick: segs plus all 4-segment arrays over codomains <= 2; thorough: up to 5 segments of length <= 3)
     pub singles: Vec<(Vec<Vec<usize>>, usize)>,
     pub raw_sizes: Vec<Vec<usize>>,
     pub small_maps: Vec<(Vec<usize>, usize)>,
@@ -41,6 +41,22 @@ impl C08 {
             }
         }
         let mut singles = segs.clone();
+        if quick {
+            // four segments (over codomains <= 2) for the one-argument families: re-indexing maps of length 3 into 4
+            // segments can skip, repeat and reorder at once
+            for c in 0..=2usize {
+                let ls = ohmc_core::uni::lists(c, 2);
+                let cnt = (ls.len() as u64).pow(4);
+                for mut i in 0..cnt {
+                    let mut v = vec![];
+                    for _ in 0..4 {
+                        v.push(ls[(i % ls.len() as u64) as usize].clone());
+                        i /= ls.len() as u64;
+                    }
+                    singles.push((v, c));
+                }
+            }
+        }
         if !quick {
             singles.clear();
             for c in 0..=3usize {
@@ -62,7 +78,7 @@ impl C08 {
         let raw_sizes = ohmc_core::uni::lists(4, 3);
         let mut small_maps = vec![];
         for n in 0..=4usize {
-            for a in 0..=3usize {
+            for a in 0..=4usize {
                 for t in ohmc_core::uni::tables(a, n) {
                     small_maps.push((t, n));
                 }
